@@ -85,3 +85,126 @@ Example C15_timer_example :
                                (Elapsed None true, q 13 2)]))
   = [(0, 0%Q, []); (2, 2%Q, []); (0, 0%Q, []); (0, 0%Q, []); (2, (7 # 2)%Q, [])].
 Proof. vm_compute. reflexivity. Qed.
+
+(** ** Tie to the source.  The left-hand sides (modules SVGen.C15_Solve, C15_Fin..., C15_Itstat)
+    are regenerated from scico/optimize/_common.py and the optimiser classes by tools/py2coq.py
+    on every run; the right-hand sides are the hand models the theorems above are about.  A
+    change of the source that changes the computation breaks these obligations. *)
+From Coq Require Import String.
+From SV Require Import Base.Num C11.Overload Opt.GenSig Opt.Gen.
+From SVGen Require C15_Timer C15_Solve C15_FinAdmm C15_FinLadmm C15_FinPadmm C15_FinNlpadmm C15_FinPdhg C15_FinPgm C15_FinApgm C15_Itstat.
+
+(** Optimizer.solve (timer start/stop, the `for self.itnum in range(...)` loop as recursion on
+    maxiter, step, NaN stop = (state at the raise, raised), statistics insertion, callback
+    between timer.stop and timer.start, the guarded final increment, minimizer()), read at the
+    driver state, IS Driver's [solve]: without and with a callback, for every state, budget,
+    nanstop flag, step / finiteness / accessor / callback functions and clock. *)
+Theorem C15_gen_solve :
+  forall (T : Type) (tzero : T) (tadd tsub : T -> T -> T) (S U : Type) (step : S -> S)
+         (finite : S -> bool) (user : S -> U) (cb : Z -> S -> S) (clk : nat -> T)
+         (nanstop : bool) (maxiter : Z) (V : Type) (minimizer : S -> V) (d : dst T S U),
+    C15_Solve.solve_gen__none
+      (OS := DriverSig T tzero tadd tsub S U step finite user cb clk nanstop maxiter V minimizer) d
+    = with_value T S U V minimizer (solve T tzero tadd tsub S U step finite user cb clk nanstop false maxiter d) /\
+    C15_Solve.solve_gen__callback
+      (OS := DriverSig T tzero tadd tsub S U step finite user cb clk nanstop maxiter V minimizer) d tt
+    = with_value T S U V minimizer (solve T tzero tadd tsub S U step finite user cb clk nanstop true maxiter d).
+Proof. intros. split; [apply solve_gen_none_is_model | apply solve_gen_callback_is_model]. Qed.
+Print Assumptions C15_gen_solve.
+
+(** _working_vars_finite of each optimiser class, over working variables given as blocks of
+    entry codes: true iff every entry of every block of every variable the class lists is finite
+    ([vars_finite]); the list on the right is the list of attributes the code inspects. *)
+Theorem C15_gen_finite_ADMM : forall x zl ul,
+  C15_FinAdmm.finite_gen (FS := CodeSig) (C15_FinAdmm.mk_st x zl ul) = vars_finite (x :: zl ++ ul).
+Proof. exact finite_admm. Qed.
+Print Assumptions C15_gen_finite_ADMM.
+Theorem C15_gen_finite_LinearizedADMM : forall x z u,
+  C15_FinLadmm.finite_gen (FS := CodeSig) (C15_FinLadmm.mk_st x z u) = vars_finite [x; z; u].
+Proof. exact finite_ladmm. Qed.
+Print Assumptions C15_gen_finite_LinearizedADMM.
+Theorem C15_gen_finite_ProximalADMM : forall x z u,
+  C15_FinPadmm.finite_gen (FS := CodeSig) (C15_FinPadmm.mk_st x z u) = vars_finite [x; z; u].
+Proof. exact finite_padmm. Qed.
+Print Assumptions C15_gen_finite_ProximalADMM.
+Theorem C15_gen_finite_NonLinearPADMM : forall x z u,
+  C15_FinNlpadmm.finite_gen (FS := CodeSig) (C15_FinNlpadmm.mk_st x z u) = vars_finite [x; z; u].
+Proof. exact finite_nlpadmm. Qed.
+Print Assumptions C15_gen_finite_NonLinearPADMM.
+Theorem C15_gen_finite_PDHG : forall x z,
+  C15_FinPdhg.finite_gen (FS := CodeSig) (C15_FinPdhg.mk_st x z) = vars_finite [x; z].
+Proof. exact finite_pdhg. Qed.
+Print Assumptions C15_gen_finite_PDHG.
+Theorem C15_gen_finite_PGM : forall x,
+  C15_FinPgm.finite_gen (FS := CodeSig) (C15_FinPgm.mk_st x) = vars_finite [x].
+Proof. exact finite_pgm. Qed.
+Print Assumptions C15_gen_finite_PGM.
+Theorem C15_gen_finite_AcceleratedPGM : forall x v,
+  C15_FinApgm.finite_gen (FS := CodeSig) (C15_FinApgm.mk_st x v) = vars_finite [x; v].
+Proof. exact finite_apgm. Qed.
+Print Assumptions C15_gen_finite_AcceleratedPGM.
+
+(** itstat_func_and_object (the option merge), read at association-list dictionaries: it is the
+    model [itstat_model]; the caller's dict is returned unchanged; the insertion function is the
+    user's when the user's dict has one, else the default. *)
+Theorem C15_gen_itstat_options :
+  forall (Val Obj : Type) (vb : bool -> Val) (mkobj : dict Val -> Obj) (dflt_func fields : Val) (opts : option (dict Val)),
+    let r := C15_Itstat.itstat_func_and_object_gen (DS := ListDict Val Obj vb mkobj) dflt_func fields opts in
+    r = itstat_model Val Obj vb mkobj dflt_func fields opts /\
+    snd r = opts /\
+    fst (fst r) = match opts with
+                  | Some u => match dget Val (rev u) "itstat_func" with Some f => Some f | None => Some dflt_func end
+                  | None => Some dflt_func
+                  end.
+Proof.
+  intros. split; [apply itstat_gen_is_model | split; [apply itstat_caller_dict_unchanged | apply itstat_insert_func_rule]].
+Qed.
+Print Assumptions C15_gen_itstat_options.
+
+(** scico.util.Timer.start / stop / reset / elapsed, regenerated from scico/util.py (one
+    definition per way the label argument is given: None, one label, a list; KeyError = the state
+    reached so far with PyRaise), read at association-list dictionaries t0 / td, ARE the step
+    function [tstep] of Opt/Timer.v about which the refinement theorem above is proved: for every
+    state, clock reading, label argument, default / all label.  [R] maps the model's dictionary of
+    (t0, td) pairs to the two dictionaries of the code. *)
+Theorem C15_gen_timer_start :
+  forall (T : Type) (tzero : T) (tadd tsub : T -> T -> T) (dflt allb : nat) (s : list (label * (option T * T))) (now : T),
+    (C15_Timer.start_gen__none (TS := ListTimer T tzero tadd tsub) now (R T dflt allb s)
+       = (R T dflt allb (fst (tstep T tzero dflt allb (option T * T) (c_init T tzero) (c_start T) (c_stop T tadd tsub) (c_elapsed T tzero tadd tsub) s (Start SelNone) now)), conv T (snd (tstep T tzero dflt allb (option T * T) (c_init T tzero) (c_start T) (c_stop T tadd tsub) (c_elapsed T tzero tadd tsub) s (Start SelNone) now)))) /\
+    (forall l : nat, C15_Timer.start_gen__one (TS := ListTimer T tzero tadd tsub) now (R T dflt allb s) l
+       = (R T dflt allb (fst (tstep T tzero dflt allb (option T * T) (c_init T tzero) (c_start T) (c_stop T tadd tsub) (c_elapsed T tzero tadd tsub) s (Start (SelOne l)) now)), conv T (snd (tstep T tzero dflt allb (option T * T) (c_init T tzero) (c_start T) (c_stop T tadd tsub) (c_elapsed T tzero tadd tsub) s (Start (SelOne l)) now)))) /\
+    (forall ls : list nat, C15_Timer.start_gen__list (TS := ListTimer T tzero tadd tsub) now (R T dflt allb s) ls
+       = (R T dflt allb (fst (tstep T tzero dflt allb (option T * T) (c_init T tzero) (c_start T) (c_stop T tadd tsub) (c_elapsed T tzero tadd tsub) s (Start (SelList ls)) now)), conv T (snd (tstep T tzero dflt allb (option T * T) (c_init T tzero) (c_start T) (c_stop T tadd tsub) (c_elapsed T tzero tadd tsub) s (Start (SelList ls)) now)))).
+Proof. intros. apply timer_start_gen_is_model. Qed.
+Print Assumptions C15_gen_timer_start.
+
+Theorem C15_gen_timer_stop :
+  forall (T : Type) (tzero : T) (tadd tsub : T -> T -> T) (dflt allb : nat) (s : list (label * (option T * T))) (now : T),
+    (C15_Timer.stop_gen__none (TS := ListTimer T tzero tadd tsub) now (R T dflt allb s)
+       = (R T dflt allb (fst (tstep T tzero dflt allb (option T * T) (c_init T tzero) (c_start T) (c_stop T tadd tsub) (c_elapsed T tzero tadd tsub) s (Stop SelNone) now)), conv T (snd (tstep T tzero dflt allb (option T * T) (c_init T tzero) (c_start T) (c_stop T tadd tsub) (c_elapsed T tzero tadd tsub) s (Stop SelNone) now)))) /\
+    (forall l : nat, C15_Timer.stop_gen__one (TS := ListTimer T tzero tadd tsub) now (R T dflt allb s) l
+       = (R T dflt allb (fst (tstep T tzero dflt allb (option T * T) (c_init T tzero) (c_start T) (c_stop T tadd tsub) (c_elapsed T tzero tadd tsub) s (Stop (SelOne l)) now)), conv T (snd (tstep T tzero dflt allb (option T * T) (c_init T tzero) (c_start T) (c_stop T tadd tsub) (c_elapsed T tzero tadd tsub) s (Stop (SelOne l)) now)))) /\
+    (forall ls : list nat, C15_Timer.stop_gen__list (TS := ListTimer T tzero tadd tsub) now (R T dflt allb s) ls
+       = (R T dflt allb (fst (tstep T tzero dflt allb (option T * T) (c_init T tzero) (c_start T) (c_stop T tadd tsub) (c_elapsed T tzero tadd tsub) s (Stop (SelList ls)) now)), conv T (snd (tstep T tzero dflt allb (option T * T) (c_init T tzero) (c_start T) (c_stop T tadd tsub) (c_elapsed T tzero tadd tsub) s (Stop (SelList ls)) now)))).
+Proof. intros. apply timer_stop_gen_is_model. Qed.
+Print Assumptions C15_gen_timer_stop.
+
+Theorem C15_gen_timer_reset :
+  forall (T : Type) (tzero : T) (tadd tsub : T -> T -> T) (dflt allb : nat) (s : list (label * (option T * T))) (now : T),
+    (C15_Timer.reset_gen__none (TS := ListTimer T tzero tadd tsub) now (R T dflt allb s)
+       = (R T dflt allb (fst (tstep T tzero dflt allb (option T * T) (c_init T tzero) (c_start T) (c_stop T tadd tsub) (c_elapsed T tzero tadd tsub) s (Reset SelNone) now)), conv T (snd (tstep T tzero dflt allb (option T * T) (c_init T tzero) (c_start T) (c_stop T tadd tsub) (c_elapsed T tzero tadd tsub) s (Reset SelNone) now)))) /\
+    (forall l : nat, C15_Timer.reset_gen__one (TS := ListTimer T tzero tadd tsub) now (R T dflt allb s) l
+       = (R T dflt allb (fst (tstep T tzero dflt allb (option T * T) (c_init T tzero) (c_start T) (c_stop T tadd tsub) (c_elapsed T tzero tadd tsub) s (Reset (SelOne l)) now)), conv T (snd (tstep T tzero dflt allb (option T * T) (c_init T tzero) (c_start T) (c_stop T tadd tsub) (c_elapsed T tzero tadd tsub) s (Reset (SelOne l)) now)))) /\
+    (forall ls : list nat, C15_Timer.reset_gen__list (TS := ListTimer T tzero tadd tsub) now (R T dflt allb s) ls
+       = (R T dflt allb (fst (tstep T tzero dflt allb (option T * T) (c_init T tzero) (c_start T) (c_stop T tadd tsub) (c_elapsed T tzero tadd tsub) s (Reset (SelList ls)) now)), conv T (snd (tstep T tzero dflt allb (option T * T) (c_init T tzero) (c_start T) (c_stop T tadd tsub) (c_elapsed T tzero tadd tsub) s (Reset (SelList ls)) now)))).
+Proof. intros. apply timer_reset_gen_is_model. Qed.
+Print Assumptions C15_gen_timer_reset.
+
+Theorem C15_gen_timer_elapsed :
+  forall (T : Type) (tzero : T) (tadd tsub : T -> T -> T) (dflt allb : nat) (s : list (label * (option T * T))) (now : T) (total : bool),
+    (C15_Timer.elapsed_gen__none (TS := ListTimer T tzero tadd tsub) now (R T dflt allb s) total
+       = (R T dflt allb (fst (tstep T tzero dflt allb (option T * T) (c_init T tzero) (c_start T) (c_stop T tadd tsub) (c_elapsed T tzero tadd tsub) s (Elapsed None total) now)), conv T (snd (tstep T tzero dflt allb (option T * T) (c_init T tzero) (c_start T) (c_stop T tadd tsub) (c_elapsed T tzero tadd tsub) s (Elapsed None total) now)))) /\
+    (forall l : nat, C15_Timer.elapsed_gen__label (TS := ListTimer T tzero tadd tsub) now (R T dflt allb s) l total
+       = (R T dflt allb (fst (tstep T tzero dflt allb (option T * T) (c_init T tzero) (c_start T) (c_stop T tadd tsub) (c_elapsed T tzero tadd tsub) s (Elapsed (Some l) total) now)), conv T (snd (tstep T tzero dflt allb (option T * T) (c_init T tzero) (c_start T) (c_stop T tadd tsub) (c_elapsed T tzero tadd tsub) s (Elapsed (Some l) total) now)))).
+Proof. intros. apply timer_elapsed_gen_is_model. Qed.
+Print Assumptions C15_gen_timer_elapsed.
